@@ -48,7 +48,7 @@ def vtyOf : Ty → Option VTy
     match n, args with
     | "u8", .nil => some (.u 8) | "u16", .nil => some (.u 16) | "u32", .nil => some (.u 32) | "u64", .nil => some (.u 64)
     | "i8", .nil => some (.i 8) | "i32", .nil => some (.i 32) | "i64", .nil => some (.i 64)
-    | "bool", .nil => some .bool | "String", .nil => some .string | "Uint128", .nil => some .uint128
+    | "bool", .nil => some .bool | "String", .nil => some .string | "Uint128", .nil => some .uint128 | "Binary", .nil => some .binary
     | "Addr", .nil => some .addr | "Empty", .nil => some .empty
     | "Option", .cons t .nil => (vtyOf t).map .option
     | "Vec", .cons t .nil => (vtyOf t).map .vec
